@@ -173,6 +173,8 @@ def check_properties_file(prop):
     (obligations, discharged, assumptions, broken) where broken is None or a
     dict naming the theorem / file that no longer checks."""
     pfile = os.path.join(COQ, "Properties", prop + ".v")
+    if not os.path.exists(pfile):
+        return 0, 0, [], {"stage": "missing", "statement": "Properties/%s.v does not exist" % prop, "file": "coq/Properties/%s.v" % prop}
     text = strip_coq_comments(open(pfile).read())
     names = re.findall(r'^\s*(?:Theorem|Example|Corollary)\s+([A-Za-z0-9_\']+)', text, re.M)
     obligations = len(names)
